@@ -81,6 +81,9 @@ def gen_spec(rng, uid):
     kinds = {}
     for c in conv_pool:
         kinds[c] = rng.choice([(None,), (None,), (False, False), (True, False), (False, True), (True, True)])
+    # some members are wrapped in converters.optional(): arguments are never None here, so the wrapper must
+    # behave exactly like its member (same call, same forwarding of instance/field)
+    optw = {c: rng.random() < 0.3 for c in conv_pool}
     shared_comp = None
     if rng.random() < 0.6:
         shared_comp = [rng.choice(val_pool) for _ in range(rng.choice([1, 2, 2, 3]))]
@@ -96,7 +99,7 @@ def gen_spec(rng, uid):
         fields.append({"name": "f%d" % i, "steps": steps, "cstyle": rng.choice(["list", "pipe", "tuple"]),
                        "vstyle": vstyle, "vals": vals,
                        "deco": rng.random() < 0.3, "deco2": rng.random() < 0.1})
-    return {"uid": uid, "fields": fields, "kinds": {k: list(v) for k, v in kinds.items()},
+    return {"uid": uid, "fields": fields, "kinds": {k: list(v) for k, v in kinds.items()}, "opt": optw,
             "shared": shared_comp, "api": rng.choice(["attrs", "define"]), "slots": rng.random() < 0.5,
             "frozen": rng.random() < 0.3}
 
@@ -105,6 +108,8 @@ def build(spec):
     convs = {}
     for name, k in spec["kinds"].items():
         convs[name] = _mk_plain(name) if k[0] is None else _mk_converter(name, k[0], k[1])
+        if spec.get("opt", {}).get(name):
+            convs[name] = attr.converters.optional(convs[name])
     vals = {n: _mk_validator(n) for n in ("v0", "v1", "v2", "v3")}
     shared = attr.validators.and_(*[vals[v] for v in spec["shared"]]) if spec["shared"] is not None else None
     ns = {}
@@ -260,6 +265,7 @@ def run(tier, seed, prop="C02"):
             dist["dup-validators"] += len(set(f["vals"])) < len(f["vals"])
             dist["mixed-pipe"] += len({spec["kinds"][s][0] is None for s in f["steps"]}) == 2
             dist["decorated"] += bool(f["deco"])
+            dist["optional-wrapped-members"] += sum(1 for st in f["steps"] if spec["opt"].get(st))
     bad = vlib.run_cases(prop, HEADER, CASE_TYPE, CHECK, terms, tag="compose")
     for i in bad[:6]:
         inp, seen = meta[i]
